@@ -134,6 +134,29 @@ func (vc *VC) factsOf(v *Term, t types.Type, alloc *Term, depth int) *Term {
 	return nil
 }
 
+// heapFacts2: the same for two-level heaps (map values, backing arrays): (select (select h r) k).
+func (vc *VC) heapFacts2(h *Term, key, s *Sort, alloc *Term) *Term {
+	var gt types.Type
+	switch s.Kind {
+	case KStruct:
+		gt = s.Go
+	case KBig:
+		gt = vc.eng.bigIntType()
+	}
+	if gt == nil {
+		return nil
+	}
+	q := fmt.Sprintf("hf%d", vc.nfresh)
+	k := fmt.Sprintf("hk%d", vc.nfresh)
+	vc.nfresh++
+	obj := T(s, "(select (select "+h.S+" "+q+") "+k+")")
+	f := vc.factsOf(obj, gt, alloc, 0)
+	if f == nil {
+		return nil
+	}
+	return T(sortBool, fmt.Sprintf("(forall ((%s Int) (%s %s)) (! %s :pattern ((select (select %s %s) %s))))", q, k, key.Name, f.S, h.S, q, k))
+}
+
 // heapFacts: every object in a (fresh or initial) heap of struct / big.Int sort is well-formed.
 func (vc *VC) heapFacts(h *Term, s *Sort, alloc *Term) *Term {
 	var gt types.Type
@@ -723,8 +746,8 @@ func (vc *VC) simple(st *State, f *Frame, ins ssa.Instruction) {
 		vc.mapStore(st, mt, m, vc.tv(st, f, x.Key), vc.tv(st, f, x.Value))
 	case *ssa.MakeMap:
 		mt := x.Type().Underlying().(*types.Map)
-		ks, es := T.SortOf(mt.Key()), T.SortOf(mt.Elem())
-		mh := vc.mapHeapsOf(st, ks, es)
+		ks, _ := T.SortOf(mt.Key()), T.SortOf(mt.Elem())
+		mh := vc.mapHeapsOf(st, mt)
 		r := vc.newRef(st, "map")
 		vc.setHeap(st, mh.pn, Store(mh.p, r, T.Zero(T.ArrayOf(ks, sortBool))))
 		vc.setHeap(st, mh.nn, Store(mh.n, r, IntLit(0)))
@@ -1073,7 +1096,7 @@ func (vc *VC) lookup(st *State, f *Frame, x *ssa.Lookup) {
 		m := vc.tv(st, f, x.X)
 		k := vc.tv(st, f, x.Index)
 		vc.guardCheckMap(st, f, x.X, x.Pos())
-		mh := vc.mapHeapsOf(st, ks, es)
+		mh := vc.mapHeapsOf(st, mt)
 		present := Select(Select(mh.p, m, T.ArrayOf(ks, sortBool)), k, sortBool)
 		// a nil map has no entries
 		present = And(Not(Eq(m, IntLit(0))), present)
@@ -1095,7 +1118,7 @@ func (vc *VC) lookup(st *State, f *Frame, x *ssa.Lookup) {
 func (vc *VC) mapStore(st *State, mt *types.Map, m, k, v *Term) {
 	T := vc.eng.st
 	ks, es := T.SortOf(mt.Key()), T.SortOf(mt.Elem())
-	mh := vc.mapHeapsOf(st, ks, es)
+	mh := vc.mapHeapsOf(st, mt)
 	pa := Select(mh.p, m, T.ArrayOf(ks, sortBool))
 	va := Select(mh.v, m, T.ArrayOf(ks, es))
 	was := Select(pa, k, sortBool)
@@ -1109,7 +1132,7 @@ func (vc *VC) mapStore(st *State, mt *types.Map, m, k, v *Term) {
 func (vc *VC) mapDelete(st *State, mt *types.Map, m, k *Term) {
 	T := vc.eng.st
 	ks, es := T.SortOf(mt.Key()), T.SortOf(mt.Elem())
-	mh := vc.mapHeapsOf(st, ks, es)
+	mh := vc.mapHeapsOf(st, mt)
 	pa := Select(mh.p, m, T.ArrayOf(ks, sortBool))
 	va := Select(mh.v, m, T.ArrayOf(ks, es))
 	was := And(Not(Eq(m, IntLit(0))), Select(pa, k, sortBool))
@@ -1128,7 +1151,7 @@ func (vc *VC) doNext(st *State, f *Frame, x *ssa.Next) []*State {
 	if it == nil {
 		refuse("Next on unknown iterator")
 	}
-	mh := vc.mapHeapsOf(st, it.keySort, it.valSort)
+	mh := vc.mapHeapsOf(st, it.mapType)
 	pa := Select(mh.p, it.mapRef, T.ArrayOf(it.keySort, sortBool))
 	va := Select(mh.v, it.mapRef, T.ArrayOf(it.keySort, it.valSort))
 	// done branch
@@ -1223,8 +1246,8 @@ func (vc *VC) havocLoop(st *State, f *Frame, li *loopInfo) {
 		case "obj-new", "arr-new":
 			plan(m.heap, m.sort, m.kind == "arr-new").newOnly = true
 		case "map", "map-new":
-			ks, es := T.SortOf(m.mt.Key()), T.SortOf(m.mt.Elem())
-			mh := vc.mapHeapsOf(st, ks, es)
+			_ = T
+			mh := vc.mapHeapsOf(st, m.mt)
 			if m.kind == "map" {
 				if mapSeen[mh.pn] {
 					continue
